@@ -2433,8 +2433,14 @@ class Discrimination(Output):
             I0 = np.where(obs == 0)[0]
             # Compute frequencies
             for i in range(len(edges) - 1):
-                y0[f, i] = np.mean((p[I0] >= edges[i]) & (p[I0] < edges[i + 1])) * 100
-                y1[f, i] = np.mean((p[I1] >= edges[i]) & (p[I1] < edges[i + 1])) * 100
+                in0 = (p[I0] >= edges[i]) & (p[I0] < edges[i + 1])
+                in1 = (p[I1] >= edges[i]) & (p[I1] < edges[i + 1])
+                if i == len(edges) - 2:
+                    # The last bin includes its upper edge (e.g. p = 1)
+                    in0 = in0 | (p[I0] == edges[i + 1])
+                    in1 = in1 | (p[I1] == edges[i + 1])
+                y0[f, i] = np.mean(in0) * 100
+                y1[f, i] = np.mean(in1) * 100
 
             # Figure out where to put the bars. Each file will have pairs of
             # bars, so try to space them nicely.
@@ -2527,6 +2533,9 @@ class Reliability(Output):
                 # Compute frequencies
                 for i in range(len(edges) - 1):
                     q = (p >= edges[i]) & (p < edges[i + 1])
+                    if i == len(edges) - 2:
+                        # The last bin includes its upper edge (e.g. p = 1)
+                        q = q | (p == edges[i + 1])
                     I = np.where(q)[0]
                     if len(I) > 0:
                         n[f, i] = len(obs[I])
@@ -2632,6 +2641,9 @@ class IgnContrib(Output):
             # Compute frequencies
             for i in range(len(edges) - 1):
                 q = (p >= edges[i]) & (p < edges[i + 1])
+                if i == len(edges) - 2:
+                    # The last bin includes its upper edge (e.g. p = 1)
+                    q = q | (p == edges[i + 1])
                 I = np.where(q)[0]
                 if len(I) > 0:
                     n[f, i] = len(obs[I])
